@@ -313,6 +313,16 @@ def havoc_cell(ip, loc, name, kind=None, shallow=False):
         del c['items']
         c['seq'] = fresh(name + "_seq", kind)
         return
+    if k == 'set':
+        # abstract set: the sequence of its members in insertion order (only membership is observable through it)
+        if 'elems' in c:
+            c['elems'] = fresh(name + "_elems", c['elems'].kind)
+        elif kind is not None:
+            c.pop('items', None)
+            c['elems'] = fresh(name + "_elems", kind)
+        else:
+            raise Unsupported("havoc of set %s (declare the kind of its member sequence)" % name)
+        return
     if k == 'bytearray':
         c['data'] = fresh(name + "_data", 'bytes')
     elif k == 'bytesio':
@@ -507,14 +517,16 @@ def _havoc_loop(ip, s, inv, extra_names=()):
     if isinstance(s, ast.For):
         names -= _assigned_names([ast.Expr(s.target)]) if False else set()
     modified_cells = set()
-    for nm in inv.modifies:
+    for nm0 in inv.modifies:
+        shallow = nm0.endswith('!')          # "obj!": the object's own scalar fields, not the objects it refers to
+        nm = nm0.rstrip('!')
         v = fr.env.get(nm)
         if v is None and '.' in nm:
             base, attr = nm.split('.', 1)
             v = ip.getattr(fr.env[base], attr)
         if not isinstance(v, Loc):
             raise Unsupported("invariant modifies '%s' which is not a heap object" % nm)
-        havoc_cell(ip, v, nm.replace('.', '_'), inv.kinds.get(nm) if not isinstance(inv.kinds.get(nm), api.Builder) else None)
+        havoc_cell(ip, v, nm.replace('.', '_'), inv.kinds.get(nm) if not isinstance(inv.kinds.get(nm), api.Builder) else None, shallow=shallow)
         modified_cells.add(v.id)
     for nm in sorted(names):
         if nm in fr.env:
@@ -708,6 +720,10 @@ def apply_contract(ip, c, f, args, kw):
         pv = eval_cfn(ip, ens, values, old_heap)
         for cl in clauses(pv):
             z = ip.zbool(cl)
+            if z3.is_false(simp(z)) and (gz is None or z3.is_true(simp(gz))):
+                # assuming it would make everything after the call vacuously true (typically: the callee's contract has no
+                # `returns` builder, so `result` is None and `result == ...` is plainly False)
+                raise Unsupported("postcondition %s of %s is plainly false at this call (contract without `returns`?)" % (name, c.target))
             st.assume(z if gz is None else z3.Implies(gz, z))
             # a postcondition of the form `result == term`: hand the term itself to the caller, so that what it builds
             # from the result matches its own specification syntactically (the equation stays assumed as well)
